@@ -275,6 +275,22 @@ impl GuardBuf {
             unreachable!()
         }
     }
+    /// Read back the `len` bytes last handed out by `tail` / `head` / `place` (same placement),
+    /// through the buffer's own pointer (no integer-to-pointer round trip).
+    pub fn peek(&self, at_tail: bool, len: usize) -> &[u8] {
+        if self.heap_mode {
+            return &self.heap[..len.min(self.heap.len())];
+        }
+        #[cfg(not(miri))]
+        unsafe {
+            let off = if at_tail { PAGE + self.usable - len } else { PAGE };
+            std::slice::from_raw_parts(self.base.add(off), len)
+        }
+        #[cfg(miri)]
+        {
+            unreachable!()
+        }
+    }
     /// Copy `data` flush against the trailing (`at_tail`) or leading guard.
     pub fn place(&mut self, data: &[u8], at_tail: bool) -> &mut [u8] {
         let s = if at_tail { self.tail(data.len()) } else { self.head(data.len()) };
